@@ -152,6 +152,13 @@ def evalGenBank (op : String) (args : List Sexp) : Option String :=
       | none => pure "PANIC"
       | some (rs, reg', ok) =>
         pure s!"{encList (rs.map encRecord)} {encRegistry reg'} {if ok then "OK" else "ERR"}"
+  | "gb.state", [reg, t] => do
+      -- one call of `GenBankParser` on a fresh state: verdict, the bytes not yet consumed, and
+      -- whether a saved position is left
+      match (genbankParser (← decRegistry? reg)).run' ⟨← decBytes? t, []⟩ with
+      | (.ok _, s) => pure s!"OK {encBytes s.rest} {if s.stk.isEmpty then 0 else 1}"
+      | (.error .fail, s) => pure s!"ERR {encBytes s.rest} {if s.stk.isEmpty then 0 else 1}"
+      | (.error .panic, _) => pure "PANIC"
   | "gb.wrw", [reg, t] => do
       match readAll (← decRegistry? reg) (← decBytes? t) with
       | none => pure "PANIC"
